@@ -201,6 +201,17 @@ def main():
 
     # ---- 6: verdict
     os.makedirs(paths.REPLAYS, exist_ok=True)
+    # replay names: stable for a run on /repo; a run against a scratch tree (VERIF_REPO) gets its own tag, so that two
+    # concurrent runs never write (or later read) each other's files.  Stale files of this run's own name are removed first.
+    rtag = f"{prop}-{tier}-seed{seed}" + (f"-alt{os.getpid()}" if os.environ.get("VERIF_REPO") else "")
+    if replay_file is None:
+        import glob as _glob
+        for old in _glob.glob(os.path.join(paths.REPLAYS, rtag + "-*.json")):
+            if os.path.abspath(old) != os.path.abspath(replay_file or ""):
+                try:
+                    os.remove(old)
+                except OSError:
+                    pass
     exit_code = 0
     printed = set()
     for v in result["violations"]:
@@ -218,7 +229,7 @@ def main():
                 case = plugin.shrink(case, v["key"])
             except Exception:
                 pass
-        rp = os.path.join(paths.REPLAYS, f"{prop}-{tier}-seed{seed}-{len(reported)}.json")
+        rp = os.path.join(paths.REPLAYS, f"{rtag}-{len(reported)}.json")
         with open(rp, "w") as f:
             json.dump({"property": prop, "seed": seed, "tier": tier, "kind": "failing-input", "key": v["key"],
                        "message": v["message"], "cases": [strip_private(case)],
@@ -229,7 +240,7 @@ def main():
         if len(reported) >= 5:
             break
     if broke and not new_viol:
-        rp = os.path.join(paths.REPLAYS, f"{prop}-{tier}-seed{seed}-tie.json")
+        rp = os.path.join(paths.REPLAYS, f"{rtag}-tie.json")
         with open(rp, "w") as f:
             json.dump({"property": prop, "seed": seed, "tier": tier, "kind": "no-failing-input-found",
                        "broken": run.problems,
